@@ -13,8 +13,11 @@ class VfsLookup:
 
 
 def handle_vfs_lookup(parser, events):
-    node = parser.parse_vnode(events)
-    return VfsLookup(events, node.path, node.vnode_id)
+    nodes = parser.parse_vnodes(events)
+    if not nodes:
+        # A continuation chunk of a multi-record lookup, it is reported once with the whole lookup.
+        return None
+    return VfsLookup(events, nodes[0].path, nodes[0].vnode_id)
 
 
 handlers = {
